@@ -16,7 +16,8 @@ def handleEvalSource : List Sexp → Sexp
     | some b, some env, some s, some floats, some bad =>
       let F : Api.Front :=
         { cc := Gen.goCharClass, tables := Gen.lexTables,
-          pcfg := { tb := Gen.parserTables, num := numOf floats, badRegex := fun p => bad.contains p } }
+          pcfg := { tb := Gen.parserTables, num := numOf floats, badRegex := fun p => bad.contains p },
+          jumpGuard := Gen.jumpGuard }
       let c : Cfg := { world := mkWorld (regexTable rx), env := env, budget := b, defects := defectsOfSexp defects }
       match Api.evalSource F c 2000000 s with
       | .lexError _ => .list [.atom "lexerr"]
@@ -39,9 +40,11 @@ def handleCompileSource : List Sexp → Sexp
     | some (dn, _), some dt, some e, some ex, some me, some opt, some s, some floats, some bad, some b, some env =>
       let F : Api.Front :=
         { cc := Gen.goCharClass, tables := Gen.lexTables,
-          pcfg := { tb := Gen.parserTables, num := numOf floats, badRegex := fun p => bad.contains p } }
+          pcfg := { tb := Gen.parserTables, num := numOf floats, badRegex := fun p => bad.contains p },
+          jumpGuard := Gen.jumpGuard }
       let T : Api.TypedCfg :=
-        { check := cfgOfEnv dn dt e true ex, mapEnv := me, optimize := opt, optFlags := optFlagsOfSexp flags }
+        { check := cfgOfEnv dn dt e true ex, mapEnv := me, optimize := opt, optFlags := optFlagsOfSexp flags,
+          jumpGuard := Gen.jumpGuard }
       let c : Cfg := { world := mkWorld [], env := env, budget := b, defects := defectsOfSexp defects }
       match Api.runSource F T c 2000000 s with
       | .ran cp res final => .list [.atom "ok", compiledToSexp cp, outcomeToSexp (res, final)]
